@@ -254,9 +254,6 @@ func compareMatrix(r *gozxing.BitMatrix, m *mmodel) string {
 	if r.GetWidth() != m.w || r.GetHeight() != m.h {
 		return fmt.Sprintf("dimensions %dx%d, model %dx%d", r.GetWidth(), r.GetHeight(), m.w, m.h)
 	}
-	if r.GetRowSize() != (m.w+31)/32 {
-		return fmt.Sprintf("rowSize %d for width %d", r.GetRowSize(), m.w)
-	}
 	l, t, rt, bt := m.w, m.h, -1, -1
 	tlx, tly, brx, bry := -1, -1, -1, -1
 	for y := 0; y < m.h; y++ {
